@@ -63,7 +63,8 @@ def decode_next_inline(F, ev, rets, fallible):
         nx = [e for e in p.events if e['kind'] == 'call' and e['callee'] == 'core::iter::Iterator::next']
         if len(nx) != 1 or nx[0]['args'][0][1] != MODELS:
             return None
-        item = item_of(nx[0]['result'])
+        items = [item_of(nx[0]['result']), ('unwrap', nx[0]['result'])]     # `match`/`if let` payload, or the value of `next()?`
+        item = items[0]
         decs = [e for e in p.events if e['kind'] == 'call' and e['callee'] == DEC + '::decode_symbol']
         got = None
         for t, v, _ in p.preds:
@@ -84,19 +85,19 @@ def decode_next_inline(F, ev, rets, fallible):
         if sh[0] != 'Some':
             return (False, 'a yielded model does not produce an item')
         if not fallible:
-            if len(decs) != 1 or decs[0]['args'][1] != item or sh[1] != decs[0]['result']:
+            if len(decs) != 1 or decs[0]['args'][1] not in items or sh[1] != decs[0]['result']:
                 return (False, 'the item is not `decoder.decode_symbol(model)` for the yielded model')
         else:
-            ok_model = ('payload', item, 'Ok', '0')
-            is_ok = any(t[0] == 'discr' and t[1] == item and sym.discr_variant(t, v) == 'Ok' for t, v, _ in p.preds)
-            is_err = any(t[0] == 'discr' and t[1] == item and sym.discr_variant(t, v) == 'Err' for t, v, _ in p.preds)
+            ok_models = [('payload', it, 'Ok', '0') for it in items]
+            is_ok = any(t[0] == 'discr' and t[1] in items and sym.discr_variant(t, v) == 'Ok' for t, v, _ in p.preds)
+            is_err = any(t[0] == 'discr' and t[1] in items and sym.discr_variant(t, v) == 'Err' for t, v, _ in p.preds)
             if is_ok:
-                if len(decs) != 1 or decs[0]['args'][1] != ok_model or not sym.contains(sh[1], lambda x, res=decs[0]['result']: x == res):
+                if len(decs) != 1 or decs[0]['args'][1] not in ok_models or not sym.contains(sh[1], lambda x, res=decs[0]['result']: x == res):
                     return (False, 'an Ok model is not decoded with exactly that model, or the decoded result is not what the item carries')
             elif is_err:
                 if decs:
                     return (False, 'a symbol is decoded although the model iterator yielded an error')
-                if not sym.contains(sh[1], lambda x: x == ('payload', item, 'Err', '0')):
+                if not any(sym.contains(sh[1], lambda x, it=it: x == ('payload', it, 'Err', '0')) for it in items):
                     return (False, 'the error of an invalid model is not passed on')
             else:
                 return None
@@ -183,6 +184,24 @@ def loop_batch_check(ctx, F, name, fallible):
                     if enc:
                         bad = 'an invalid item is reported after it was already encoded'
                         break
+    if not bad and n_back == 0 and not fallible:
+        # adaptor form: `symbols_and_models.into_iter().try_for_each(|(s, m)| self.encode_symbol(s, m))`
+        rets = [r for r in paths if r.end == 'return']
+        if len(rets) == 1 and rets[0].ret[0] == 'call' and rets[0].ret[1].endswith('Iterator::try_for_each') and len(rets[0].ret[2]) == 2:
+            src, cl = effects.strip_uid(rets[0].ret[2][0]), rets[0].ret[2][1]
+            while src[0] == 'call' and src[1].endswith('into_iter'):
+                src = src[2][0]
+            cb = F.by_def.get(cl[1][1]) if cl[0] == 'agg' and isinstance(cl[1], tuple) and cl[1][0] == 'closure' else None
+            if src == ('arg', 2) and cb is not None:
+                _, cp = rules.evaluate(cb)
+                cr = [p for p in cp or [] if p.end == 'return']
+                ctx.touch(cb)
+                if len(cr) == 1:
+                    encs = [e for e in cr[0].events if e['kind'] == 'call' and e['callee'] == ENC + '::encode_symbol']
+                    comp = lambda t, i: is_proj_of(t, ('arg', 2), i) or t == ('in', (2, ('f', str(i))))
+                    if len(encs) == 1 and cr[0].ret == encs[0]['result'] and comp(encs[0]['args'][1], 0) and comp(encs[0]['args'][2], 1):
+                        ctx.ok('R5', role, b.defpath, 'arg.into_iter().try_for_each(|item| self.encode_symbol(item.0, item.1)) (std: in order, stops at the first error)', key=key)
+                        return
     if not bad:
         if n_back != 1 or n_exit_ok != 1 or n_err_enc != 1 or (fallible and n_err_item != 1):
             ctx.unresolved('R5', role, b.defpath, 'shape outside the idiom list (iterations %d, ok exits %d, encode-error exits %d, item-error exits %d)' % (n_back, n_exit_ok, n_err_enc, n_err_item), key=key)
